@@ -210,10 +210,13 @@ Inductive case :=
    reported matches.  anchored: the condition only asks for `$a at N`, so the
    pattern may be searched at that offset only (no completeness promised). *)
 | PipeCase (p : pat) (sps : list subpat) (atoms : list atom) (anchored : bool)
-           (d : bytes) (reported : list triple)
-(* stream (e): a pattern that the compiler splits into a chain of literal pieces
-   (jumps over the chaining threshold), with the REAL pieces and atoms *)
-| ChainCase (p : pat) (pieces : list cpiece) (atoms : list atom) (d : bytes) (reported : list triple).
+           (kernel : nat) (hits : list hit) (d : bytes) (reported : list triple)
+(* stream (e): a pattern that the compiler splits into a chain of pieces (jumps
+   over the chaining threshold), with the REAL pieces and atoms, the kernel that
+   ran (0 the vectorised one, 1 the automaton, 2 none), the REAL atom hits and
+   the REAL verified piece matches (events) in the order the scan produced them *)
+| ChainCase (p : pat) (pieces : list cpiece) (atoms : list atom) (kernel : nat) (hits : list hit)
+            (events : list event) (d : bytes) (reported : list triple).
 
 (* ---- stream (d) ------------------------------------------------------- *)
 Definition flags_eqb (a b : spflags) : bool :=
@@ -270,22 +273,40 @@ Definition all_atoms_ok (p : pat) (sps : list subpat) (atoms : list atom) : bool
 
 Definition nat_triple (m : mtch) : triple := (m_start m, m_end m - m_start m, m_key m).
 
-(* every (start, len, key) some verification yields, whatever the order *)
-Definition pipe_candidates (sps : list subpat) (atoms : list atom) (d : bytes) : list triple :=
-  map (fun r => nat_triple (mtch_of r))
-      (flat_map (fun sp => opt_list (verify_anchored sp d)) sps ++
-       flat_map (fun h => opt_list (handle_hit sps atoms d h)) (all_hits atoms d)).
+(* ---- the real hits ---------------------------------------------------- *)
+Definition hit_eqb (a b : hit) : bool := Nat.eqb (fst a) (fst b) && Nat.eqb (snd a) (snd b).
+Definition hit_mem (h : hit) (l : list hit) : bool := existsb_lazy (hit_eqb h) l.
 
-Definition pipe_check (p : pat) (sps : list subpat) (atoms : list atom) (d : bytes) (rep : list triple) : bool :=
+Fixpoint nondecreasing (l : list nat) : bool :=
+  match l with
+  | a :: ((b :: _) as t) => Nat.leb a b && nondecreasing t
+  | _ => true
+  end.
+
+(* the key the kernel orders its reports by: the vectorised kernel (lib/src/teddy)
+   looks at the START positions of a block in turn; the automaton (daachorse,
+   overlapping iteration) reports when it has consumed the END of an atom *)
+Definition hit_key (kernel : nat) (atoms : list atom) (h : hit) : nat :=
+  match kernel with
+  | O => snd h
+  | _ => (snd h + match nth_error atoms (fst h) with Some a => length (a_bytes a) | None => O end)%nat
+  end.
+
+(* the recorded hits are exactly the occurrences of the atoms (each once), in an
+   order the kernel that ran can produce *)
+Definition hits_ok (kernel : nat) (atoms : list atom) (d : bytes) (hits : list hit) : bool :=
+  let all := all_hits atoms d in
+  Nat.eqb (length hits) (length all) &&
+  forallb (fun h => hit_mem h all) hits && forallb (fun h => hit_mem h hits) all &&
+  nondecreasing (map (hit_key kernel atoms) hits) &&
+  (Nat.ltb kernel 2%nat || match hits with [] => true | _ => false end).
+
+Definition pipe_check (p : pat) (sps : list subpat) (atoms : list atom) (kernel : nat) (hits : list hit)
+                      (d : bytes) (rep : list triple) : bool :=
   (match expected_sps p with Some e => list_eqb sp_eqb sps e | None => true end) &&
   all_atoms_ok p sps atoms &&
-  let ml := map nat_triple (scan_pipeline sps atoms (all_hits atoms d) d) in
-  let cands := pipe_candidates sps atoms d in
-  let ambiguous := existsb (fun c => existsb (fun c' => (t_start c =? t_start c') && negb (triple_eqb c c')) cands) cands in
-  if ambiguous then
-    list_eqb N.eqb (map t_start rep) (map t_start ml) &&
-    forallb (fun t => existsb (triple_eqb t) cands) rep
-  else list_eqb triple_eqb rep ml.
+  hits_ok kernel atoms d hits &&
+  list_eqb triple_eqb rep (map nat_triple (scan_pipeline sps atoms hits d)).
 
 (* ---- stream (e) ------------------------------------------------------- *)
 (* the top-level items of a pattern, one item per byte / jump / ... *)
@@ -301,8 +322,6 @@ Fixpoint lit_of_items (l : list re) : option bytes :=
   | RCls (CByte b) :: t => match lit_of_items t with Some r => Some (b :: r) | None => None end
   | _ => None
   end.
-Definition cgap_of (g : gap) : cgap :=
-  match g_max g with Some m => GBounded (g_min g) m | None => GUnbounded (g_min g) end.
 Definition cgap_eqb (a b : cgap) : bool :=
   match a, b with
   | GBounded a1 a2, GBounded b1 b2 => Nat.eqb a1 b1 && Nat.eqb a2 b2
@@ -310,84 +329,128 @@ Definition cgap_eqb (a b : cgap) : bool :=
   | _, _ => false
   end.
 
-(* what Chain.split_at_large_gaps (the model of re/hir.rs proved to keep the
-   language) says the pieces are, to be compared with the dumped ones: literal
-   bytes, link to the previous piece with its gap, LastInChain on the last *)
-Definition expected_pieces (p : pat) : option (list (bytes * option (nat * cgap) * bool)) :=
-  let r := match p with PHex r => Some r | PRegexp r m => if rm_wide m || rm_nocase m then None else Some r | PText _ _ => None end in
-  match r with
+(* the chain Chain.split_at_large_gaps (the model of re/hir.rs proved to keep the
+   language) makes of the pattern: (nocase, ascii form?, wide form?, chain) *)
+Definition chain_of_pat (p : pat) : option (bool * bool * bool * (re * list (gap * re))) :=
+  match p with
+  | PHex r => Some (false, true, false, split_at_large_gaps (flat_items r))
+  | PRegexp r m =>
+      Some (rm_nocase m, negb (rm_wide m) || rm_ascii m, rm_wide m, split_at_large_gaps (flat_items r))
+  | PText _ _ => None
+  end.
+
+(* the position of a piece in its chain: the number of links back to the head *)
+Fixpoint depth (fuel : nat) (pieces : list cpiece) (id : nat) : nat :=
+  match fuel with
+  | O => O
+  | S f => match nth_error pieces id with
+           | Some pc => match cp_link pc with Some (to, _) => S (depth f pieces to) | None => O end
+           | None => O
+           end
+  end.
+Definition piece_depth (pieces : list cpiece) (id : nat) : nat := depth (length pieces) pieces id.
+
+Definition piece_re (c : re * list (gap * re)) (pieces : list cpiece) (id : nat) : option re :=
+  match nth_error pieces id with
+  | Some pc => match nth_error (chain_res c) (piece_depth pieces id) with
+               | Some r => Some (vre (f_wide (cp_flags pc)) r)
+               | None => None
+               end
   | None => None
-  | Some r =>
-      let '(h, t) := split_at_large_gaps (flat_items r) in
-      let n := length t in
-      match lit_of_items (flat_items h) with
-      | None => None
-      | Some hl =>
-          let tails := map (fun igp => let '(i, (g, pr)) := igp in
-                              match lit_of_items (flat_items pr) with
-                              | Some l => Some (l, Some (i, cgap_of g), Nat.eqb (S i) n)
-                              | None => None
-                              end) (combine (seq 0 n) t) in
-          if forallb (fun o => match o with Some _ => true | None => false end) tails
-          then Some ((hl, None, false) :: flat_map (fun o => match o with Some x => [x] | None => [] end) tails)
-          else None
-      end
   end.
 
-Fixpoint list_eqb2 {A B} (eq : A -> B -> bool) (a : list A) (b : list B) : bool :=
-  match a, b with
-  | [], [] => true
-  | x :: a', y :: b' => eq x y && list_eqb2 eq a' b'
-  | _, _ => false
+(* the dumped pieces against the split model: one chain per form (ascii, wide);
+   piece k of a chain is linked to piece k-1 of the same form with the gap the
+   model gives (in bytes, also for the wide form), LastInChain on the last, and
+   a piece the compiler made a LITERAL is the literal the model says *)
+Definition chain_shape_ok (p : pat) (pieces : list cpiece) : bool :=
+  match chain_of_pat p with
+  | None => true
+  | Some (_, asc, wid, c) =>
+      let n := length (snd c) in
+      Nat.eqb (length pieces) (S n * ((if asc then 1 else 0) + (if wid then 1 else 0)))%nat &&
+      forallb (fun id =>
+        match nth_error pieces id with
+        | None => false
+        | Some pc =>
+            let k := piece_depth pieces id in
+            let w := f_wide (cp_flags pc) in
+            (if w then wid else asc) &&
+            Bool.eqb (cp_last pc) (Nat.eqb k n && negb (Nat.eqb k O)) &&
+            (match cp_link pc, k with
+             | None, O => true
+             | Some (to, g), S k' =>
+                 match nth_error pieces to, nth_error (snd c) k' with
+                 | Some pt, Some (g', _) =>
+                     Nat.eqb (piece_depth pieces to) k' && Bool.eqb (f_wide (cp_flags pt)) w && cgap_eqb g (cgap_of g')
+                 | _, _ => false
+                 end
+             | _, _ => false
+             end) &&
+            (cp_regexp pc ||
+             match nth_error (chain_res c) k with
+             | Some r => match lit_of_items (flat_items r) with
+                         | Some l => bytes_eqb (cp_lit pc) (if w then widen l else l)
+                         | None => false
+                         end
+             | None => false
+             end)
+        end) (seq 0 (length pieces))
   end.
 
-Definition piece_shape_eqb (c : cpiece) (e : bytes * option (nat * cgap) * bool) : bool :=
-  let '(l, link, last) := e in
-  bytes_eqb (cp_lit c) l && Bool.eqb (cp_last c) last &&
-  match cp_link c, link with
-  | None, None => true
-  | Some (a, g), Some (b, h) => Nat.eqb a b && cgap_eqb g h
-  | _, _ => false
-  end.
-
+(* atoms_ok for the atoms of every LITERAL piece *)
 Definition chain_atoms_ok (pieces : list cpiece) (atoms : list atom) : bool :=
   forallb (fun i => match nth_error pieces i with
-                    | Some c => atoms_ok (mkSP (KLiteral (cp_lit c) None) (cp_flags c)) (0, 0) (atoms_of atoms i)
+                    | Some c => cp_regexp c || atoms_ok (piece_sp c) (0, 0) (atoms_of atoms i)
                     | None => false
                     end) (seq 0 (length pieces)) &&
   forallb (fun a => Nat.ltb (a_sp a) (length pieces)) atoms.
 
-(* hits in the order of the offset where the atom ENDS, then atom index: the
-   order in which an automaton that consumes the data left to right reports them *)
-Definition hits_by_end (atoms : list atom) (d : bytes) : list hit :=
-  flat_map (fun e => flat_map (fun i => match nth_error atoms i with
-                                        | Some a =>
-                                            let len := length (a_bytes a) in
-                                            if Nat.leb len e && atom_at a d (e - len) then [(i, (e - len)%nat)] else []
-                                        | None => []
-                                        end) (seq 0 (length atoms)))
-           (seq 0 (S (length d))).
+Definition event_eqb (a b : event) : bool :=
+  let '(i1, s1, e1) := a in let '(i2, s2, e2) := b in Nat.eqb i1 i2 && Nat.eqb s1 s2 && Nat.eqb e1 e2.
 
-(* hits in the order of the offset where the atom STARTS, then atom index: the
-   order of the vectorised kernel (lib/src/teddy), which looks at the positions of
-   a block in turn; the automaton used for short buffers and big rule sets reports
-   by END offset.  Which one runs depends on the CPU's vector width and on the rule
-   set, so both orders are accepted. *)
-Definition hits_by_start (atoms : list atom) (d : bytes) : list hit :=
-  flat_map (fun s => flat_map (fun i => match nth_error atoms i with
-                                        | Some a => if atom_at a d s then [(i, s)] else []
-                                        | None => []
-                                        end) (seq 0 (length atoms)))
-           (seq 0 (S (length d))).
+Definition is_regexp_piece (pieces : list cpiece) (id : nat) : bool :=
+  match nth_error pieces id with Some pc => cp_regexp pc | None => false end.
 
-Definition chain_model (pieces : list cpiece) (atoms : list atom) (hits : list hit) (d : bytes) : list triple :=
-  map nat_triple (scan_chain pieces atoms hits d).
+(* the events of the REGEXP pieces against the reference matcher: every event is
+   a match of the piece (its form widened), and -- for a piece without fullword
+   flags -- every start where the piece matches has an event *)
+Definition regexp_events_ok (p : pat) (pieces : list cpiece) (evs : list event) (d : bytes) : bool :=
+  match chain_of_pat p with
+  | None => forallb (fun ev => negb (is_regexp_piece pieces (fst (fst ev)))) evs
+  | Some (nc, _, _, c) =>
+      forallb (fun ev => let '(id, s, e) := ev in
+                 negb (is_regexp_piece pieces id) ||
+                 match piece_re c pieces id with
+                 | Some r => memb e (ends nc d r s)
+                 | None => false
+                 end) evs &&
+      forallb (fun id =>
+        match nth_error pieces id, piece_re c pieces id with
+        | Some pc, Some r =>
+            negb (cp_regexp pc) || f_fwl (cp_flags pc) || f_fwr (cp_flags pc) ||
+            forallb (fun s => match ends nc d r s with
+                              | [] => true
+                              | _ => existsb_lazy (fun ev => Nat.eqb (fst (fst ev)) id && Nat.eqb (snd (fst ev)) s) evs
+                              end) (seq 0 (S (length d)))
+        | _, _ => true
+        end) (seq 0 (length pieces))
+  end.
 
-Definition chain_check (p : pat) (pieces : list cpiece) (atoms : list atom) (d : bytes) (rep : list triple) : bool :=
-  (match expected_pieces p with Some e => list_eqb2 piece_shape_eqb pieces e | None => true end) &&
-  chain_atoms_ok pieces atoms &&
-  (if list_eqb triple_eqb rep (chain_model pieces atoms (hits_by_start atoms d) d) then true
-   else list_eqb triple_eqb rep (chain_model pieces atoms (hits_by_end atoms d) d)).
+(* 1 shape, 2 atoms_ok, 4 hits, 8 literal events, 16 regexp events, 32 bookkeeping *)
+Definition chain_check_bits (p : pat) (pieces : list cpiece) (atoms : list atom) (kernel : nat) (hits : list hit)
+                            (evs : list event) (d : bytes) (rep : list triple) : N :=
+  (if chain_shape_ok p pieces then 0 else 1) +
+  (if chain_atoms_ok pieces atoms then 0 else 2) +
+  (if hits_ok kernel atoms d hits then 0 else 4) +
+  (if list_eqb event_eqb (filter (fun ev => negb (is_regexp_piece pieces (fst (fst ev)))) evs)
+                         (hit_events pieces atoms hits d) then 0 else 8) +
+  (if regexp_events_ok p pieces evs d then 0 else 16) +
+  (if list_eqb triple_eqb rep (map nat_triple (run_chain pieces evs)) then 0 else 32).
+
+Definition chain_check (p : pat) (pieces : list cpiece) (atoms : list atom) (kernel : nat) (hits : list hit)
+                       (evs : list event) (d : bytes) (rep : list triple) : bool :=
+  chain_check_bits p pieces atoms kernel hits evs d rep =? 0.
 
 Fixpoint run_list (l : match_list) (adds : list (N * N * option N * bool)) : match_list * list bool :=
   match adds with
@@ -412,8 +475,8 @@ Definition check_case (c : case) : bool :=
       list_eqb res_eqb rs1 pre_res && list_eqb res_eqb rs3 post_res &&
       list_eqb dump_eqb (model_dump p3 npids) dump
   | MLPanicCase _ => false
-  | PipeCase p sps atoms _ d rep => pipe_check p sps atoms d rep
-  | ChainCase p pieces atoms d rep => chain_check p pieces atoms d rep
+  | PipeCase p sps atoms _ k hits d rep => pipe_check p sps atoms k hits d rep
+  | ChainCase p pieces atoms k hits evs d rep => chain_check p pieces atoms k hits evs d rep
   | ScanCase p d mm panicked rep =>
       negb panicked &&
       (if limit_reached mm rep then
@@ -438,10 +501,10 @@ Definition spec_case (c : case) : bool :=
   | PMBigCase _ _ _ _ _ _ _ dump => forallb (fun e => ascending_b (map t_start (snd (fst e)))) dump
   | ScanCase p d mm panicked rep => negb panicked && scan_spec p d mm rep
   | MLPanicCase _ => false
-  | PipeCase p _ _ anchored d rep =>
+  | PipeCase p _ _ anchored _ _ d rep =>
       if anchored then sound_b p d (ref_scan p d) rep && ascending_b (map t_start rep)
       else scan_spec p d None rep
-  | ChainCase p _ _ d rep => scan_spec p d None rep
+  | ChainCase p _ _ _ _ _ d rep => scan_spec p d None rep
   end.
 
 (* which part of the specification fails on a scan case (bit mask; used only to
@@ -460,21 +523,21 @@ Definition diagnose (c : case) : N :=
   (* stream (d): 64 the dumped sub-patterns are not the ones compile_text / the hex model
      expects, 128 atoms_ok is false on the real atoms, 256 the pipeline model run on the
      real sub-patterns and atoms does not reproduce the reported list *)
-  | PipeCase p sps atoms anchored d rep =>
+  | PipeCase p sps atoms anchored k hits d rep =>
       let rs := ref_scan p d in
       (if sound_b p d rs rep then 0 else 2) + (if ascending_b (map t_start rep) then 0 else 4) +
       (if anchored || complete_b p d rs rep then 0 else 8) +
       (match expected_sps p with Some e => if list_eqb sp_eqb sps e then 0 else 64 | None => 0 end) +
       (if all_atoms_ok p sps atoms then 0 else 128) +
-      (if pipe_check p sps atoms d rep then 0 else 256)
+      (if hits_ok k atoms d hits then 0 else 512) +
+      (if pipe_check p sps atoms k hits d rep then 0 else 256)
   (* stream (e): 64 the dumped pieces are not the ones the split model expects, 128 atoms_ok
      false on the real atoms of a piece, 256 the chain model does not reproduce the reported list *)
-  | ChainCase p pieces atoms d rep =>
+  | ChainCase p pieces atoms k hits evs d rep =>
       let rs := ref_scan p d in
       (if sound_b p d rs rep then 0 else 2) + (if ascending_b (map t_start rep) then 0 else 4) +
       (if complete_b p d rs rep then 0 else 8) +
-      (match expected_pieces p with Some e => if list_eqb2 piece_shape_eqb pieces e then 0 else 64 | None => 0 end) +
-      (if chain_atoms_ok pieces atoms then 0 else 128) +
-      (if chain_check p pieces atoms d rep then 0 else 256)
+      (if chain_check p pieces atoms k hits evs d rep then 0 else 256) +
+      1024 * chain_check_bits p pieces atoms k hits evs d rep
   | _ => 32
   end.
